@@ -45,13 +45,21 @@ impl Slot {
 
     /// Generates a named slot like `$xyz`
     pub fn named(s: &str) -> Slot {
+        // only the canonical spelling of a number is a numeric slot ("05" and "+5" are ordinary names),
+        // and it has to fit into the numeric range.
+        let canonical = |x: u32, s: &str| x < (1 << 30) && x.to_string() == s;
+
         if let Ok(x) = s.parse::<u32>() {
-            return Slot(x * 4); // numeric
+            if canonical(x, s) {
+                return Slot(x * 4); // numeric
+            }
         }
 
         SLOT_TABLE.with_borrow_mut(|tab| {
             if s.starts_with("f") {
-                if let Ok(x) = s[1..].parse::<u32>() {
+                // the fresh index after `x` has to be in range as well.
+                let fresh_idx = s[1..].parse::<u32>().ok();
+                if let Some(x) = fresh_idx.filter(|x| *x < (1 << 30) - 1 && canonical(*x, &s[1..])) {
                     let out = x * 4 + 1;
                     if tab.fresh_idx <= out {
                         tab.fresh_idx = out + 4;
